@@ -308,6 +308,12 @@ func genC07(cfg Config, emit Emit) error {
 		}
 		emit("ucan", []string{mustJSON(&s)}, s.Alter+"/"+s.Key[:2], s.Alter != "none")
 	}
+	// every field is in the root block: the wire format model writes the block from the fields
+	nu := 150
+	if cfg.Thorough() {
+		nu = 4000
+	}
+	genWire(cfg, emit, 0, nu)
 	return nil
 }
 
